@@ -345,6 +345,10 @@ func (c *C) Mail(ctx context.Context, from string, opts smtp.MailOptions) error 
 		return c.wrapClientErr(err, c.serverName)
 	}
 
+	// New transaction: the connection can be reused, forget recipients of the
+	// previous one.
+	c.rcpts = nil
+
 	return nil
 }
 
